@@ -542,6 +542,23 @@ def rule_perf_caps_engage(ctx) -> None:
               f"{n_fn} functions: no optional sized container is tested by truthiness; " + hazards.controls(ctx, "clematis.engine.health", ["truthy"]))
 
 
+def rule_caps_reach_the_callers_container(ctx) -> None:
+    """"never exceeding its ... budgets" with perf caps: the frontier cap is enforced by replacing the heap with its n smallest
+    entries.  Done inside a helper on a PARAMETER (`frontier = nsmallest(cap, frontier)`), the replacement re-binds the helper's
+    own name only: the caller keeps popping the untrimmed heap, nodes behind entries that should have been evicted are expanded
+    and reported, and the eviction counter counts evictions that never happened."""
+    from .. import hazards
+    n_fn = 0
+    for fn in ctx.prog.module(T1).funcs.values():
+        n_fn += 1
+        for p, x in hazards.lost_param_rebinding(ctx, fn):
+            ctx.violation("C12.LOOP", ctx.okey(f"{fn.qual}/trim-reaches-the-callers-container"), fn.loc(x),
+                          f"`{src(x)[:60]}` re-binds the parameter `{p}` after editing the caller's object through it, and the new object is neither returned nor written back (`{p}[:] = ...`): the "
+                          "caller's container is never trimmed - the cap this line implements is not enforced while its eviction counter still counts")
+    ctx.holds("C12.LOOP", f"{T1}/helpers-do-not-lose-a-rebinding", "clematis/engine/stages/t1.py", f"{n_fn} functions (closures included): no parameter is edited in place and then re-bound without being handed back; "
+              + hazards.controls(ctx, "clematis.engine.health", ["rebind"]))
+
+
 def rule_tallies_accumulate(ctx) -> None:
     """"counters that match the work done": a tally that is folded into a reported total after a loop (`total += tally`) must
     itself be accumulated inside the loop.  A plain assignment there (`tally = ev`, `tally = 1`) keeps the last iteration's
@@ -625,3 +642,4 @@ def run(ctx) -> None:
     rule_key_unambiguous(ctx)
     rule_tag_values(ctx)
     rule_perf_caps_engage(ctx)
+    rule_caps_reach_the_callers_container(ctx)
